@@ -32,6 +32,7 @@ type CrashScenario struct {
 }
 
 type childSpec struct {
+	Fresh  bool   `json:"fresh"`
 	Name   string `json:"name"`
 	Lines  int    `json:"lines"`
 	LineN  int    `json:"lineN"`
@@ -63,6 +64,12 @@ func ChildMain(t *testing.T, specJSON string) {
 	var cs childSpec
 	if err := json.Unmarshal([]byte(specJSON), &cs); err != nil {
 		t.Fatal(err)
+	}
+	if cs.Fresh { // C18: the first values a Check without -rapid.seed draws in a new process
+		setFlags(map[string]string{"checks": "20", "nofailfile": "true"})
+		fs := oneFreshCheck("TestFresh")
+		_ = os.WriteFile("fresh.out", []byte(strings.Join(fs, " ")), 0o644)
+		return
 	}
 	gates := 0
 	rapid.VerifSetGate(func(point string) {
